@@ -2,7 +2,7 @@
 import kcp_common as K
 
 META = {
-    "enabled": False,
+    "enabled": True,
     "engine": "kcp",
     "technique": "Coq invariant proof over all event lists of a two-endpoint system with monotone wire history (sender ghost numbering + receiver ghost, composed) + differential replay + prefix oracle",
     "level_text": "Machine-checked for the raw endpoints: for every finite list of events (arbitrary API calls with arbitrary arguments and clock values on both sides; the reader's Input fed any datagram the writer emitted earlier, any number of times, in any order, or never; the writer's Input fed anything) the bytes (stream mode) resp. messages with their boundaries (message mode) returned by Recv are a prefix of what Send accepted, provided fewer than 2^31-2^16 segments were numbered; every datagram ever emitted carries under each sequence number the payload that number was given (retransmissions included); re-feeding any genuine datagram (duplicate, FEC-recovered) keeps the receiver invariant. Tied to kcp.go by replaying lossy/duplicating/reordering histories of two real cores in the extracted model and by a prefix oracle after every Recv, incl. all fate assignments for the first K datagrams.",
